@@ -126,3 +126,38 @@ def run(repo: Repo, rep: Report, tier: str) -> None:
         g = [[x for x in f[:3] if not isinstance(x, list)] for f in got]
         w = [[x for x in f if x not in ("n", "0..1")] for f in sp["classes"][cname]["fields"]]
         rep.check(g == w, "wire", f"pdu_items.{cname}", " | ".join(" ".join(str(x) for x in f) for f in g), f"layout differs from PS3.7/PS3.8: {w}", mod=ci.mod, node=ci.getters["_encoders"])
+
+    # ---- the proposed roles reach every requested context -------------------------------------
+    import ast as _ast
+    from ..loader import enclosing as _enc, walk_no_nested as _walk, norm as _norm
+    rep.rule("every-context", "the requestor copies its proposed roles onto every requested context (per context, looked up by abstract syntax), not onto one context per abstract syntax")
+    acse_m = repo.mod("acse")
+    nr = repo.func("acse", "ACSE._negotiate_as_requestor")
+    n_sets = 0
+    for s in _walk(nr):
+        tgts = []
+        if isinstance(s, _ast.Assign):
+            for t in s.targets:
+                tgts += list(t.elts) if isinstance(t, _ast.Tuple) else [t]
+        for t in tgts:
+            if isinstance(t, _ast.Attribute) and t.attr in ("scu_role", "scp_role"):
+                n_sets += 1
+                recv = t.value
+                lp = _enc(s, (_ast.For,))
+                ok = False
+                while lp is not None:
+                    if isinstance(recv, _ast.Name) and _norm(lp.target) == recv.id and _norm(lp.iter) in ("self.requestor.requested_contexts", "self.assoc.requestor.requested_contexts"):
+                        ok = True
+                    lp = _enc(lp, (_ast.For,))
+                rep.check(ok, "every-context", "acse.ACSE._negotiate_as_requestor", s, f"`{_norm(t)}` is not set on the loop variable of a loop over requestor.requested_contexts: when the same abstract syntax is proposed in several contexts only some of them get the proposed roles, the others fall back to the default role while the acceptor applies the negotiated one - the two sides' roles are then not complementary", mod=acse_m, node=s)
+    rep.floor("requestor-side role assignments", n_sets, 2)
+
+    # ---- a decided role reply is never withdrawn --------------------------------------------------
+    # (C10's reply-ownership rule: if the acceptor drops or replaces a reply it decided, the requestor
+    # falls back to default roles while the acceptor keeps the negotiated ones)
+    from .c10 import check_reply_ownership
+    rep.rule("reply-ownership", "the acceptor's role-reply map is only added to: a decided reply is never dropped or replaced")
+    for fname_ in ("negotiate_as_acceptor", "negotiate_unrestricted"):
+        fn_ = pres.funcs.get(fname_)
+        if fn_ is not None and any(isinstance(x, _ast.Name) and x.id == "reply_roles" for x in _ast.walk(fn_)):
+            check_reply_ownership(rep, pres, fn_, f"presentation.{fname_}", "reply_roles")
